@@ -140,6 +140,17 @@ func (store *ModuleStore) NewModule(ctx Context, impl *ModuleImpl) (*Module, err
 		Globals:    impl.Globals.Copy(),
 		Context:    ctx,
 	}
+	// Mutable containers among the implementation's globals (eg
+	// os.environ) must not be shared between the module instances of
+	// different contexts
+	for name, value := range m.Globals {
+		switch x := value.(type) {
+		case StringDict:
+			m.Globals[name] = x.Copy()
+		case *List:
+			m.Globals[name] = x.Copy()
+		}
+	}
 	// Insert the methods into the module dictionary
 	// Copy each method an insert each "live" with a ptr back to the module (which can also lead us to the host Context)
 	for _, method := range impl.Methods {
